@@ -167,7 +167,48 @@ def run(chk: Check, model):
         ok = k == S("name") and v == want
     chk.add("C08.writers", "_update_state writes buffer[name] at timing.seq", bool(ok), "the supervisor's output must be stored into its own buffer at timing.seq via update_output", chk.loc(f_us))
 
+    # write-after-read within a generation: every slot of a generation reads the buffer as it was at generation entry
+    sub = cv.run_generation
+    f_gen = cv.fi("_run_generation")
+    slot_loops = [l for l in sub.loops.values() if l.kind == "for" and l.iter == T.mk_call("timings_gen.items", [])]
+    ok = len(slot_loops) == 1
+    carried = []
+    if ok:
+        carried = [n for n, v in slot_loops[0].pre.items() if v == S("graph_state") or mentions(v, "graph_state")]
+        rb_in_loop = [e for e in sub.events if e.kind == "call" and e.name.endswith(".replace_buffer") and e.loops and e.func == f_gen.qualname]
+        ok = not carried and not rb_in_loop
+    chk.add("C08.writers", "_run_generation: outputs published after all slots of the generation have read", ok,
+            f"the graph state is updated inside the per-slot loop (carried: {carried}): a producer slot would overwrite a buffer entry that a later slot of the same "
+            "generation is still scheduled to read (buffer sizes assume write-after-read per generation)", chk.loc(f_gen))
+    rb = [e for e in sub.events if e.kind == "call" and e.name.endswith(".replace_buffer") and e.func == f_gen.qualname]
+    chk.add("C08.writers", "_run_generation: one replace_buffer per generation", len(rb) == 1 and not rb[0].loops and rb[0].recv == S("graph_state"),
+            f"{len(rb)} replace_buffer call(s) in _run_generation; expected one, after the slot loop, on the generation's input state", chk.loc(f_gen))
+
     # ---------------------------------------------------------------- sizes
+    f_bs = model.func("base.Timings.get_buffer_sizes")
+    chk.used(f_bs.qualname)
+    evb = SymEval(model)
+    rbs = evb.run_function(f_bs)
+    ret = rbs.ret
+    ok = ret[0] == "comp" and ret[1] == "dict" and ret[2][0] == "tuple" and ret[2][1][1] == ("list", ())
+    apps = [e for e in rbs.events if e.kind == "call" and e.name.endswith(".append") and e.recv == ("list", ()) and len(e.loops) == 2]
+    ok = ok and len(apps) == 1
+    if ok:
+        a = apps[0].args[0]
+        # max_s = s.max() + 1
+        ok = a[0] == "num" and T.const_value(T.sub(a, T.ONE)) is None and any(x[0] == "call" and T.call_name(x).endswith(".max") for x in T.walk(a)) \
+            and T.sub(a, T.ONE)[0] == "call"
+        # the list appended to is the returned dict's entry of the producer (AST: <ret>[<producer var>].append(...)), no other mutation of that dict
+        rets = [n for n in ast.walk(f_bs.node) if isinstance(n, ast.Return) and isinstance(n.value, ast.Name)]
+        nm = rets[0].value.id if rets else None
+        node = apps[0].node
+        ok = ok and nm is not None and isinstance(node.func.value, ast.Subscript) and isinstance(node.func.value.value, ast.Name) and node.func.value.value.id == nm
+        others = [n for n in ast.walk(f_bs.node) if (isinstance(n, ast.Call) and isinstance(n.func, ast.Attribute) and isinstance(n.func.value, ast.Name)
+                                                     and n.func.value.id == nm and n.func.attr in ("update", "pop", "clear", "setdefault"))
+                  or (isinstance(n, ast.Subscript) and isinstance(n.ctx, ast.Store) and isinstance(n.value, ast.Name) and n.value.id == nm)]
+        ok = ok and not others
+    chk.add("C08.sizes", "minimum sizes aggregate over every reader of a producer", bool(ok), "get_buffer_sizes must append each (consumer, input) requirement s.max() + 1 to the "
+            "producer's list (the allocated size is the max over all of them); a replaced entry forgets the other consumers", chk.loc(f_bs))
     f_init = model.func("graph.Graph.__init__")
     chk.used(f_init.qualname)
     ev = SymEval(model)
